@@ -3,6 +3,7 @@
 package verifh
 
 import (
+	"encoding/json"
 	"bytes"
 	"fmt"
 	"sort"
@@ -211,7 +212,97 @@ func TestC20(t *testing.T) {
 	})
 }
 
+// TestC20Race: the counters under overlapping requests. Every interleaving (storage-call
+// granularity, the C05 scheduler) of every two-request scenario on both stores: during the
+// concurrent phase each update request that named a known log moves the attempt counter
+// once, each accepted one the success counter once, each bad-proof / root-mismatch refusal
+// its counter once, and nothing else moves.
+func TestC20Race(t *testing.T) {
+	st := vlib.StatsFor("C20", "race", "exhaustive: ALL interleavings (harness-owned scheduler at storage-call granularity) of every 2-request scenario of C05 on both stores; the movement of the witness_update_* counters during the concurrent phase must equal what the requests' outcomes say (attempt once per update request, success once per accepted one, invalid-consistency / inconsistent once per such refusal, nothing else); non-trivial = a schedule in which a request lost a race (storage error) or two requests overlapped")
+	for _, base := range scenarios(2) {
+		for _, storage := range []string{"mem", "sql"} {
+			c := *base
+			c.Storage = storage
+			cache := &refCache{m: map[string][]outcome{}}
+			var choices []int
+			for {
+				res, steps, err := runSchedule(&c, choices, cache)
+				lo := lastSchedule
+				if err == nil && lo != nil {
+					want := map[string]int{}
+					lost := false
+					for i, r := range lo.reqs {
+						if r.Kind != "update" {
+							continue
+						}
+						id := lo.ids[r.Log]
+						want[cAttempt+"{"+id+"}"]++
+						switch lo.obs[i].Kind {
+						case "accepted":
+							want[cSuccess+"{"+id+"}"]++
+						case "refused:" + vlib.VBadProof:
+							want[cInvalid+"{"+id+"}"]++
+						case "refused:" + vlib.VMismatch:
+							want[cIncons+"{"+id+"}"]++
+						case "storage-error":
+							lost = true
+						}
+					}
+					st.Record(schedKey(&c, steps), lost || res.Window || res.Waited, []string{c.Name + "/" + storage}, schedSample(&c, steps))
+					if fmt.Sprint(sortedMap(lo.counters)) != fmt.Sprint(sortedMap(want)) {
+						cc := c
+						for _, s := range steps {
+							cc.Choices = append(cc.Choices, s.Chosen)
+						}
+						err := fmt.Errorf("scenario %s on %s, schedule %v: outcomes %v moved the counters by %v, want %v", c.Name, storage, cc.Choices, lo.obs, sortedMap(lo.counters), sortedMap(want))
+						vlib.SaveFailure("C20", "race", &cc, err)
+						t.Fatalf("C20 violated: %v", err)
+					}
+				}
+				// a linearizability violation is C05's business; here only the counters are judged
+				choices = vlib.NextChoices(steps)
+				if choices == nil {
+					break
+				}
+			}
+		}
+	}
+	st.SetExhaustive(true)
+}
+
 func init() {
+	replayers["C20/race"] = func(raw json.RawMessage) error {
+		var c ConcCase
+		if err := json.Unmarshal(raw, &c); err != nil {
+			return err
+		}
+		_, steps, _ := runSchedule(&c, c.Choices, &refCache{m: map[string][]outcome{}})
+		lo := lastSchedule
+		if lo == nil {
+			return fmt.Errorf("harness: no schedule observed")
+		}
+		want := map[string]int{}
+		for i, r := range lo.reqs {
+			if r.Kind != "update" {
+				continue
+			}
+			id := lo.ids[r.Log]
+			want[cAttempt+"{"+id+"}"]++
+			switch lo.obs[i].Kind {
+			case "accepted":
+				want[cSuccess+"{"+id+"}"]++
+			case "refused:" + vlib.VBadProof:
+				want[cInvalid+"{"+id+"}"]++
+			case "refused:" + vlib.VMismatch:
+				want[cIncons+"{"+id+"}"]++
+			}
+		}
+		_ = steps
+		if fmt.Sprint(sortedMap(lo.counters)) != fmt.Sprint(sortedMap(want)) {
+			return fmt.Errorf("outcomes %v moved the counters by %v, want %v", lo.obs, sortedMap(lo.counters), sortedMap(want))
+		}
+		return nil
+	}
 	replayers["C03/hist"] = histReplayer(func(c *vlib.HistCase) error { _, _, err := runC03(c); return err })
 	replayers["C20/hist"] = histReplayer(func(c *vlib.HistCase) error { _, _, err := runC20(c); return err })
 }
